@@ -219,7 +219,7 @@ func TestProp(t *testing.T) {
 		o.MaxStmts = 4
 		o.MaxDepth = 3
 		o.Dice = true
-		o.SingleKeyDicts = true // nothing observable may depend on Go map order
+		o.SingleKeyDicts = false // since fix 6269628 a dict prints and lists its entries in key order
 		o.CoC, o.WoD, o.Fate, o.DC = c.Cfg.CoC, c.Cfg.WoD, c.Cfg.Fate, c.Cfg.DC
 		o.Avoid = s.Avoid
 		env := &gen.Env{}
